@@ -37,6 +37,8 @@ type tspec struct {
 	group string
 	// omitCrit: the role carries no `critical` key at all: the documented default (critical: true) applies
 	omitCrit bool
+	// trigger: for mode "hook": the moment the hook task is triggered at (it is deployed with the others and sits idle until then)
+	trigger string
 }
 
 type shape struct {
@@ -67,6 +69,10 @@ var shapes = []shape{
 	{name: "cnk", tasks: []tspec{{crit: true, mode: "direct", host: "hostA"}, {crit: false, mode: "direct", host: "hostB"}},
 		calls:     []string{"  - name: \"goerr-hook\"\n    call:\n      func: sim.Call(\"c03-goerr-hook\")\n      trigger: before_GO_ERROR\n      timeout: 5s\n      critical: true\n"},
 		failCalls: []string{"c03-goerr-hook"}},
+	// hook tasks: a critical and a non-critical cleanup hook (trigger DESTROY: deployed with the environment, idle until the teardown)
+	// next to a critical controllable task; a hook task is a task of the environment like any other
+	{name: "chh", tasks: []tspec{{crit: true, mode: "direct", host: "hostA"}, {crit: true, mode: "hook", host: "hostA", trigger: "DESTROY"},
+		{crit: false, mode: "hook", host: "hostB", trigger: "DESTROY"}}},
 }
 
 // failure kinds (statement: process dies / Mesos reports failed, lost, killed /
@@ -133,7 +139,7 @@ func specOf(s shape) coresim.WorkflowSpec {
 	wf := coresim.WorkflowSpec{Name: wfName(s), Hosts: []string{"hostA"}, Calls: s.calls}
 	for i, t := range s.tasks {
 		wf.Tasks = append(wf.Tasks, coresim.TaskSpec{Name: fmt.Sprintf("t%d", i), Class: className(s, i), Mode: t.mode, Critical: t.crit, Host: t.host,
-			Group: t.group, OmitCritical: t.omitCrit})
+			Group: t.group, OmitCritical: t.omitCrit, Trigger: t.trigger})
 	}
 	return wf
 }
@@ -233,7 +239,13 @@ func scenario(s shape, ph phase, group string, q, t vrt.Bounds) *vrt.Scenario {
 	n := len(s.tasks)
 	nInst := 1
 	if ph.op != "" {
-		nInst = 1 + 2*n // 0: concurrent with the request; 2k-1/2k: before/after the reply to the k-th task command
+		nCmd := 0 // hook tasks are not commanded by the environment's transitions
+		for _, t := range s.tasks {
+			if t.mode != "hook" {
+				nCmd++
+			}
+		}
+		nInst = 1 + 2*nCmd // 0: concurrent with the request; 2k-1/2k: before/after the reply to the k-th task command
 	}
 	body := func() {
 		armed = false
@@ -241,10 +253,10 @@ func scenario(s shape, ph phase, group string, q, t vrt.Bounds) *vrt.Scenario {
 		r.victim = vrt.ChooseFree(n, "victim")
 		r.kind = kinds[vrt.ChooseFree(len(kinds), "kind")]
 		r.instant = vrt.ChooseFree(nInst, "instant")
-		if r.kind == kInternal && s.tasks[r.victim].mode == "basic" {
+		if r.kind == kInternal && (s.tasks[r.victim].mode == "basic" || s.tasks[r.victim].mode == "hook") {
 			r.kind = kNone // a basic task has no device that could announce anything
 		}
-		if r.kind == kFinished && s.tasks[r.victim].mode == "basic" {
+		if r.kind == kFinished && (s.tasks[r.victim].mode == "basic" || s.tasks[r.victim].mode == "hook") {
 			r.kind = kNone // TASK_FINISHED of a basic task is what its executor sends when the task is killed on request
 		}
 		if r.kind == kBasicExit && (s.tasks[r.victim].mode != "basic" || ph.src != "RUNNING") {
@@ -592,7 +604,7 @@ func main() {
 	coresim.GlobalSetup(specs...)
 	b := func(dev, sec int) vrt.Bounds { return vrt.Bounds{Dev: dev, Seconds: sec} }
 	var scs []*vrt.Scenario
-	newShape := map[string]bool{"gcn": true, "dn": true, "cnk": true}
+	newShape := map[string]bool{"gcn": true, "dn": true, "cnk": true, "chh": true}
 	for _, s := range shapes {
 		for _, ph := range phases {
 			switch {
